@@ -374,10 +374,10 @@ def run(chk):
         "check-time recorder = the scenario tree of all earlier requests plus the checked one (engine contract)",
         "'same resource' tolerates the plural s exactly as the code base does (rstrip('s') on literal segments)",
     ]
-    chk.proved += ["isPrefixOp_spec", "uaf_exact_partial (repaired variant, relative to find_related)", "era_sound",
-                   "uaf_never_on_404_5xx", "asFound_false_alarm / asFound_miss (witnesses)"]
-    chk.partial += ["find_related = 'other nodes of the same tree' is validated by correspondence + an independent "
-                    "Python oracle on every generated tree, not yet proved for the DFS model"]
+    chk.proved += ["isPrefixOp_spec", "findRelated_mem (DFS with seen-list = other cases of the same tree, all well-formed "
+                   "recorders)", "uaf_exact (all trees)", "uaf_exact_partial", "era_sound", "uaf_never_on_404_5xx",
+                   "asFound_false_alarm / asFound_miss (witnesses)"]
+    chk.partial += ["ensure_resource_availability is proved in the 'reported only if' direction, as the property states it"]
     # witnesses first (corpus)
     judge(chk, world, [WITNESS_FALSE_ALARM, WITNESS_MISS], "witness", variant)
     # exhaustive small scope
